@@ -585,9 +585,10 @@ impl PeerHandler {
             }
             UnchokeCmd::SendRequest(req_data) => self.new_piece_request(false, &req_data).await?,
             UnchokeCmd::SendNotInterested => {
+                self.piece_rx = None;
                 self.connection.send_msg(&NotInterested::new()).await?
             }
-            UnchokeCmd::Ignore => (),
+            UnchokeCmd::Ignore => self.piece_rx = None,
         }
 
         Ok(())
